@@ -1,4 +1,4 @@
-SPECIFICATION XSpec
+SPECIFICATION Spec
 CONSTANTS
  Mols = {}
  Dev = "none"
